@@ -8,6 +8,7 @@ FUNCS = [('sqlparse.filters.tokens._CaseFilter.process', 'KeywordCaseFilter'),
          ('sqlparse.formatter.validate_options', None),
          ('sqlparse.filters.others.StripCommentsFilter._process', 'sites'),
          ('sqlparse.filters.others.StripCommentsFilter._process', 'shape: A comment B ws hint ws comment'),
+         ('sqlparse.filters.others.StripCommentsFilter.process', 'shape: comment group with a hint behind an ordinary comment'),
          ('sqlparse.filters.others.StripCommentsFilter._process.<locals>._get_insert_token', None)]
 
 
